@@ -87,11 +87,37 @@ def run(ck):
                      timeout=1800)
     tr = vlib.read_ndjson(tpath)
     ck.cov["samples"].append({"trace_events": tr[1:4]})
-    ck.cov["checker_cmd"] = "tlc MC_BoundedStack + vh stack-replay + tlc Trace_BoundedStack"
+    proofs(ck)
+    ck.cov["checker_cmd"] = ("tlc MC_BoundedStack + vh stack-replay + tlc Trace_BoundedStack; "
+                             "tlapm BoundedStackProofs (unbounded step theorems)")
     ck.assumptions += [
         "element type u8; contents read by popping a clone of the stack",
         "L4: is_full and empty bulk insertion on an over-full stack may answer either way",
     ]
+
+
+def proofs(ck):
+    """TLAPS: AllOrNothing / ErrorKinds / Inert / CapacityRespected as theorems about Outcomes for ALL
+    contents, capacities and arguments (no small-scope bound). A proof that does not go through says
+    something about the specification or the prover, never about the code: it is recorded, not a verdict."""
+    import shutil
+    import subprocess
+    src = os.path.join(vlib.SPEC, "stack")
+    dst = os.path.join(ck.work, "tlaps")
+    shutil.rmtree(dst, ignore_errors=True)
+    os.makedirs(dst)
+    for f in ("BoundedStack.tla", "BoundedStackProofs.tla"):
+        shutil.copy(os.path.join(src, f), dst)
+    try:
+        p = subprocess.run(["tlapm", "--threads", "6", "BoundedStackProofs.tla"], cwd=dst, stdout=subprocess.PIPE,
+                           stderr=subprocess.STDOUT, text=True, timeout=900)
+        m = vlib.re.search(r"All (\d+) obligations proved", p.stdout)
+        ck.cov["conformance"]["tlaps_obligations_proved"] = int(m.group(1)) if m else 0
+        if not m:
+            vlib.log("note: tlapm did not prove every obligation of BoundedStackProofs: " + p.stdout[-300:])
+    except (OSError, subprocess.TimeoutExpired) as e:
+        vlib.log(f"note: tlapm not run ({e})")
+        ck.cov["conformance"]["tlaps_obligations_proved"] = None
 
 
 def replay(ck, obj):
